@@ -182,8 +182,10 @@ def _map_vars(
     for role, tgt in branches:
         if not is_atomic(tgt):
             tgt = _map_vars(tgt, varmap)
-        elif role != '/' and tgt in varmap:
-            tgt = varmap[tgt]
+        elif role != '/' and isinstance(tgt, str):
+            ref, tilde, alignment = tgt.partition('~')
+            if ref in varmap and not tgt.startswith('"'):
+                tgt = varmap[ref] + tilde + alignment
         newbranches.append((role, tgt))
 
     return (varmap[var], newbranches)
